@@ -10,7 +10,7 @@
    denied, empty). A frame the reader never delivers (bad frame) causes no call because
    handle_frame is not reached (C05/C06). *)
 From Coq Require Import NArith Arith List String.
-From Rodbus Require Import Base.Outcome Base.ServerTypes Model.Server Model.ServerExec Spec.Modbus
+From Rodbus Require Import Base.Outcome Base.ServerTypes Model.Server Model.ServerRender Model.ServerExec Spec.Modbus
   Proofs.ServerParse Proofs.ServerProofs Proofs.ServerProps Proofs.ServerTheorems.
 Import ListNotations.
 Local Open Scope N_scope.
